@@ -37,6 +37,7 @@ PATCHES = {
  ],
  "src/internal/sync/mutex.go": [
   ("func (m *Mutex) Lock() {\n", "func (m *Mutex) Lock() {\n\truntime_simYield()\n"),
+  ("\t\tm.unlockSlow(new)\n\t}\n}\n", "\t\tm.unlockSlow(new)\n\t}\n\truntime_simYield() // verif: schedule point right after releasing a lock\n}\n"),
   ("\t\t\tstarving = starving || runtime_nanotime()-waitStartTime > starvationThresholdNs",
    "\t\t\tstarving = starving || (!runtime_simOn() && runtime_nanotime()-waitStartTime > starvationThresholdNs)"),
  ],
@@ -46,6 +47,7 @@ PATCHES = {
  ],
  "src/sync/rwmutex.go": [
   ("func (rw *RWMutex) RLock() {\n", "func (rw *RWMutex) RLock() {\n\tisync_simYield()\n"),
+  ("\t\trw.rUnlockSlow(r)\n\t}\n\tif race.Enabled {\n\t\trace.Enable()\n\t}\n}\n", "\t\trw.rUnlockSlow(r)\n\t}\n\tif race.Enabled {\n\t\trace.Enable()\n\t}\n\tisync_simYield()\n}\n"),
   ("func (r *rlocker) Unlock() { (*RWMutex)(r).RUnlock() }\n",
    "func (r *rlocker) Unlock() { (*RWMutex)(r).RUnlock() }\n\n//go:linkname isync_simYield internal/sync.runtime_simYield\nfunc isync_simYield()\n"),
  ],
